@@ -292,6 +292,15 @@ Record astate := mkA {
 Definition res_matches (k : tcore) (r : Z) : bool :=
   r =? (if k_next_result k then 1 else 0).
 
+(* Lazy connectives for the search below.  Under vm_compute (call by value) [orb],
+   [andb] and [existsb] evaluate all their arguments, which would turn the
+   backtracking search into a full exploration of the tree; [if] evaluates only
+   the branch it selects.  (The extracted OCaml is lazy either way.) *)
+Notation "a ||| b" := (if a then true else b) (at level 50, left associativity).
+Notation "a &&& b" := (if a then b else false) (at level 40, left associativity).
+Fixpoint lexistsb {A} (f : A -> bool) (l : list A) : bool :=
+  match l with [] => false | x :: l' => if f x then true else lexistsb f l' end.
+
 Section Acceptor.
   Variables (d m : Z) (ns : list nrec).
 
@@ -308,7 +317,7 @@ Section Acceptor.
         let k := a_k A in
         (* all placed *)
         (match a_main A, a_pend A, a_blocked A with [], [], [] => true | _, _, _ => false end)
-        ||
+        |||
         (* the next item of the main goroutine *)
         (match a_main A with
          | [] => false
@@ -316,9 +325,9 @@ Section Acceptor.
              acc f (mkA k (a_last A) (a_now A) (a_raise_hi A) (a_sched_hi A)
                         (a_pend A ++ [j]) (a_blocked A) rest)
          | MCall lo hi :: rest =>
-             (a_now A <=? hi) &&
+             (a_now A <=? hi) &&&
              let now' := Z.max (a_now A) lo in
-             let guard := negb (k_waiting k) && negb (is_some (k_sched k)) && negb (k_stop k) in
+             let guard := negb (k_waiting k) &&& negb (is_some (k_sched k)) &&& negb (k_stop k) in
              if negb guard then
                acc f (mkA k (a_last A) now' (a_raise_hi A) (a_sched_hi A) (a_pend A) (a_blocked A) rest)
              else
@@ -326,54 +335,54 @@ Section Acceptor.
                | None =>
                    acc f (mkA (k_call true 0 k) None now' hi (a_sched_hi A) (a_pend A) (a_blocked A) rest)
                | Some (llo, lhi) =>
-                   ((d <? hi - llo) &&
+                   ((d <? hi - llo) &&&
                     acc f (mkA (k_call true 0 k) (a_last A) now' hi (a_sched_hi A)
                                (a_pend A) (a_blocked A) rest))
-                   ||
-                   ((now' - lhi <=? d) &&
+                   |||
+                   ((now' - lhi <=? d) &&&
                     acc f (mkA (k_call false (llo + d) k) (a_last A) now' (a_raise_hi A) (lhi + d)
                                (a_pend A) (a_blocked A) rest))
                end
          | MCancel lo hi :: rest =>
-             (a_now A <=? hi) &&
+             (a_now A <=? hi) &&&
              acc f (mkA (k_cancel k) (a_last A) (Z.max (a_now A) lo)
                         (if k_stop k then a_raise_hi A else hi) (a_sched_hi A)
                         (a_pend A) (a_blocked A) rest)
          | MFinal lo hi :: rest =>
-             (a_now A <=? hi) &&
+             (a_now A <=? hi) &&&
              (* what is owed must have happened before the final Cancel *)
-             negb (is_some (k_sched k) && (a_sched_hi A + m <? lo)) &&
+             negb (is_some (k_sched k) &&& (a_sched_hi A + m <? lo)) &&&
              negb (negb (match a_blocked A with [] => true | _ => false end)
-                   && k_next_enabled k && (a_raise_hi A + m <? lo)) &&
+                   &&& k_next_enabled k &&& (a_raise_hi A + m <? lo)) &&&
              acc f (mkA (k_cancel k) (a_last A) (Z.max (a_now A) lo)
                         (if k_stop k then a_raise_hi A else hi) (a_sched_hi A)
                         (a_pend A) (a_blocked A) rest)
          end)
-        ||
+        |||
         (* a spawned Next enters *)
-        existsb (fun j =>
+        lexistsb (fun j =>
           match nfind j ns with
           | None => false
           | Some n =>
-              (a_now A <=? n_hi n) &&
+              (a_now A <=? n_hi n) &&&
               let now' := Z.max (a_now A) (n_lo n) in
               let pend' := remove_nat j (a_pend A) in
               if k_next_enabled k
-              then res_matches k (n_r n) && acc f (a_leave A j now' n pend' (a_blocked A))
+              then res_matches k (n_r n) &&& acc f (a_leave A j now' n pend' (a_blocked A))
               else acc f (mkA k (a_last A) now' (a_raise_hi A) (a_sched_hi A)
                               pend' (a_blocked A ++ [j]) (a_main A))
           end) (a_pend A)
-        ||
+        |||
         (* a blocked Next leaves the loop *)
-        (k_next_enabled k &&
-         existsb (fun j =>
+        (k_next_enabled k &&&
+         lexistsb (fun j =>
            match nfind j ns with
            | None => false
            | Some n =>
-               (a_now A <=? n_hi n) && res_matches k (n_r n) &&
+               (a_now A <=? n_hi n) &&& res_matches k (n_r n) &&&
                acc f (a_leave A j (a_now A) n (a_pend A) (remove_nat j (a_blocked A)))
            end) (a_blocked A))
-        ||
+        |||
         (* the trailing-edge timer fires *)
         (match k_sched k with
          | Some dl =>
